@@ -568,6 +568,9 @@ impl Property for C10 {
             "a panic inside a manager call fails the case with clause `panic` and ends the shard (the manager may be poisoned)".into(),
         ]
     }
+    fn describe(&self, bytes: &[u8]) -> Option<serde_json::Value> {
+        serde_json::to_value(decode(&mut Bytes::new(bytes))).ok()
+    }
     fn run(&self, bytes: &[u8], cfg: &RunCfg) -> Verdict {
         let mut u = Bytes::new(bytes);
         let case = decode(&mut u);
